@@ -491,6 +491,32 @@ func (m *C09) OnCall(e *sim.Env, c *sim.Call) {
 			}
 		}
 	}
+	// double-sign evidence that the statement makes punishable (known key, not older than MaxEvidenceAge — the age limit is
+	// inclusive —, offender staked or unstaking and not yet tombstoned) and that nothing else in the same BeginBlock can
+	// interfere with (no queued burn, no missed vote for the offender) leaves the offender tombstoned and jailed
+	if c.Kind == "begin" && c.Panic == "" && c.Entry.Begin != nil {
+		cp := sim.ParamsOf(pre)
+		missed := map[string]bool{}
+		for _, v := range c.Entry.Begin.Votes {
+			if !v.Signed {
+				missed[v.Addr] = true
+			}
+		}
+		for _, ev := range c.Entry.Begin.Evidence {
+			if _, burnQueued := pre.Burns[ev.Addr]; burnQueued || sim.EvidenceClass(pre, cp, ev, c.Time) != "valid" || missed[ev.Addr] {
+				continue
+			}
+			e.Count("c09.punishable_evidence")
+			if c.Time.Sub(ev.At()) == cp.MaxEvAge {
+				e.Count("c09.punishable_evidence_exactly_at_max_age")
+			}
+			if s, ok := post.Sign[ev.Addr]; !ok || !s.Tombstoned {
+				e.Violate("C09", "punishable-double-sign-ignored", fmt.Sprintf("BeginBlock@%d carried double-sign evidence against %s (age %v, max %v, status %s) but the offender is not tombstoned afterwards", c.H, ev.Addr, c.Time.Sub(ev.At()), cp.MaxEvAge, statusName[pre.Vals[ev.Addr].Status]), c)
+			} else if v, ok := post.Vals[ev.Addr]; ok && !v.Jailed {
+				e.Violate("C09", "double-sign-not-jailed", fmt.Sprintf("BeginBlock@%d: double-sign convict %s is not jailed afterwards", c.H, ev.Addr), c)
+			}
+		}
+	}
 	// tombstone: permanent, and implies jailed
 	for a, s := range post.Sign {
 		if s.Tombstoned {
